@@ -207,6 +207,25 @@ let rec run_case (kind : string) (body : sexp list) : string * string =
   | "subalg" ->
       let h = List.map cop_of (args (List.nth body 1)) in
       (show_cobs (crun cstate0 h), "UNSPECIFIED")
+  | "finalize" when atom (List.nth body 1) = "twice" ->
+      (* two subscriptions of clones of one finalize observable: two independent machines; (u I) concerns machine I only *)
+      let stims = args (List.nth body 3) in
+      let machine i =
+        let mine = List.filter (fun st -> match st with List [Atom "u"; j] -> int_of j = i | _ -> true) stims in
+        let segs = run_finalize_segs_from true FPlain (List.map (fun st -> match st with List [Atom "u"; _] -> ZUnsub | e -> ZSrc (ev_of e)) mine) in
+        (* back on the common time line: an empty segment where the other machine is unsubscribed *)
+        let rec align stims segs = (match stims, segs with
+            | [], _ -> []
+            | (List [Atom "u"; j]) :: r, _ when int_of j <> i -> [] :: align r segs
+            | _ :: r, s :: segs' -> s :: align r segs'
+            | _ :: r, [] -> [] :: align r []) in
+        align stims segs in
+      let m0 = machine 0 and m1 = machine 1 in
+      let show_one i seg = List.map (fun o -> match o with
+          | ZOut e -> let b = Buffer.create 8 in show_ev b e; Printf.sprintf "(d %d %s)" i (Buffer.contents b)
+          | ZCall -> "call") seg in
+      let r = String.concat " " (List.concat (List.map2 (fun a b -> show_one 0 a @ show_one 1 b @ ["|"]) m0 m1)) in
+      (r, r)
   | "finalize" ->
       (* (finalize FORM hot|cold SHAPE (stims ...)): a cold input is unsubscribed, if at all, after its script *)
       let sh = fshape_of (atom (List.nth body 1) = "hot") (List.nth body 2) in
@@ -594,6 +613,7 @@ let oracle (kind : string) (body : sexp list) (impl : string) : string option =
       if String.length impl >= 5 && String.sub impl 0 5 = "PANIC" then Some "reject:panic" else
       let t = (match parse ("(" ^ impl ^ ")") with List l -> List.map ev_of l | _ -> []) in
       if wf t then Some "ok" else Some "reject:C01 a notification after the terminal, or a second terminal"
+  | "finalize" when atom (List.nth body 1) = "twice" -> None
   | "finalize" ->
       if String.length impl >= 5 && String.sub impl 0 5 = "PANIC" then Some "reject:panic" else
       let sh = fshape_of (atom (List.nth body 1) = "hot") (List.nth body 2) in
